@@ -338,6 +338,8 @@ def build_rels(rels):
         e.set("Target", target)
         if mode == "External":
             e.set("TargetMode", "External")
+        elif mode == "Internal!":
+            e.set("TargetMode", "Internal")   # the default written out, as some producers do
     return etree.tostring(root, xml_declaration=True, encoding="UTF-8", standalone=True)
 
 
